@@ -480,6 +480,14 @@ func (s *caSys) canon() string {
 	for k, v := range s.db {
 		parts = append(parts, "db:"+k+"="+v)
 	}
+	// what the Redis servers really hold (so that histories whose models agree but whose
+	// real state differs are never merged)
+	for i, sv := range s.srv {
+		for _, k := range sv.s.Keys() {
+			v, _ := sv.s.Get(k)
+			parts = append(parts, fmt.Sprintf("real%d:%s=%s/%v", i, k, strings.Trim(v, `"`), sv.s.TTL(k)))
+		}
+	}
 	sort.Strings(parts)
 	var pend []string
 	for _, p := range s.pending {
